@@ -539,7 +539,7 @@ func c06Eval(c *fw.Ctx, data any) {
 		var lv util.Message
 		var late int
 		var lerr error
-		p, pv, st := fw.Recover(func() { lv, late, lerr = lib.BuildMessageLate(m) })
+		p, pv, st := fw.Recover(func() { lv, late, lerr = lib.BuildMessageLate(m, false, c.Index%2 == 1) })
 		if p {
 			c.Violation(kindOf(m), "panic", "late-growth-build:"+fw.LibFrame(st), pv+"\n"+fw.TrimStack(st))
 		} else if lerr == nil && late > 0 {
